@@ -462,6 +462,79 @@ def rule_shape(chk, w, f):
                  f.span.loc())
 
 
+def rule_flows(chk, w):
+    """FLOWS: the change computation starts from NetFlows, the per-pool totals of what goes in and what goes
+    out. Each total must be built from sources of ITS pool and ITS direction only - in particular the
+    ephemeral input amount counts on the input side and the ephemeral output amount on the output side
+    (one on the wrong side breaks inputs = outputs + change + fee or makes the strategy refuse a funded
+    request). Decided on the origin of every field of the NetFlows aggregate, closures included."""
+    import closures
+    fs = [f for f in w.fns.values() if f.p.endswith("fees::common::calculate_net_flows") and not f.is_closure()]
+    if len(fs) != 1:
+        chk.fail("FLOWS", "missing", "calculate_net_flows not found")
+        return
+    f = fs[0]
+    b = f.body
+    du = closures.deep()(b)
+    args = f.argnames or []
+    POOL_OF_ARG = {"transparent_inputs": "t", "transparent_outputs": "t", "sapling": "sapling", "orchard": "orchard",
+                   "ironwood": "ironwood", "ephemeral_balance": "t"}
+    DIR_OF_ARG = {"transparent_inputs": "in", "transparent_outputs": "out"}
+
+    def tokens(o, acc):
+        """(pool tags, direction tags) mentioned by an origin, following closures"""
+        if not isinstance(o, tuple):
+            return
+        if o[0] == "arg" and o[1] < len(args):
+            nm = args[o[1]]
+            if nm in POOL_OF_ARG:
+                acc[0].add(POOL_OF_ARG[nm])
+            if nm in DIR_OF_ARG:
+                acc[1].add(DIR_OF_ARG[nm])
+        names = []
+        if o[0] == "call":
+            names.append(o[1])
+        if o[0] == "fn":
+            names.append(o[1] or "")
+        if o[0] == "agg" and o[1].startswith("closure:"):
+            g = next((x for x in w.fns.values() if x.id == o[1][8:] or x.p == o[1][8:]), None)
+            if g is not None and g.body is not None:
+                names += [t.callee.target_p() for _bb, t in g.body.calls() if t.callee.indirect is None]
+        for nm in names:
+            last = nm.rsplit("::", 1)[-1]
+            if re.search(r"(^|_)inputs?($|_)|InputView|::coin$", nm) or last in ("inputs", "coin"):
+                acc[1].add("in")
+            if re.search(r"(^|_)outputs?($|_)|OutputView", nm) or last == "outputs":
+                acc[1].add("out")
+        for x in o[1:]:
+            if isinstance(x, tuple):
+                tokens(x, acc)
+            elif isinstance(x, list):
+                for y in x:
+                    tokens(y, acc)
+    n = 0
+    for blk in b.blocks:
+        if blk.cleanup:
+            continue
+        for st in blk.stmts:
+            if not (st.kind == "=" and st.rv.kind == "agg" and st.rv.agg[0] == "adt" and st.rv.agg[1].endswith("::NetFlows")):
+                continue
+            for fl, op in zip(st.rv.agg[3], st.rv.ops):
+                m = re.match(r"^(t|sapling|orchard|ironwood)_(in|out)$", fl)
+                if not m:
+                    continue
+                acc = (set(), set())
+                tokens(du.origin(op), acc)
+                n += 1
+                if acc[0] == {m.group(1)} and acc[1] == {m.group(2)}:
+                    chk.ok("FLOWS", "NetFlows.%s sums %s-pool %sputs only" % (fl, m.group(1), m.group(2)), sample=(fl == "t_out"))
+                else:
+                    chk.fail("FLOWS", fl, "NetFlows.%s is built from pools %s and directions %s (expected only %s / %s)"
+                             % (fl, sorted(acc[0]), sorted(acc[1]), m.group(1), m.group(2)), st.span.loc())
+    if n < 8:
+        chk.fail("FLOWS", "fields", "expected the eight in/out totals of NetFlows, found %d" % n, f.span.loc())
+
+
 def main(tier):
     chk = Check("C07", "other", tier)
     chk.explanation = (
@@ -477,6 +550,7 @@ def main(tier):
     chk.rule("REFUSE", "InsufficientFunds only when inputs < outputs + fee, reporting those values", floor=2)
     chk.rule("CONSERVE", "every (change, fee) result satisfies sum(change) + fee = inputs - outputs", floor=5)
     chk.rule("SHAPE", "each fee computation of the change calculation describes one change shape", floor=3)
+    chk.rule("FLOWS", "every in/out total of NetFlows sums its own pool and direction", floor=8)
     chk.rule("BAL", "TransactionBalance only from its constructor; total = sum(change) + fee", floor=3)
     w = zf.World(extract.facts_dir("all"), ["zcash_primitives", "zcash_protocol", "zcash_client_backend",
                                             "zcash_transparent"])
@@ -491,25 +565,57 @@ def main(tier):
     # the result expression
     ok_call = [t for bb, t in _calls(b, r"Option::<T>::ok_or_else$") if t.dest is not None and t.dest.local == 0]
     expr = defuse.show(du.origin(ok_call[0].args[0])) if len(ok_call) == 1 else ""
-    a = {n: "arg%d" % i for n, i in names.items()}
-    clc = sorted(_calls(b, r"fee_required::\{closure#0\}$"), key=lambda x: (x[1].span.line, x[1].span.col))
-    mx = _calls(b, r"^core::cmp::max$")
+    a = {n: ("arg", i) for n, i in names.items()}
+    import closures
     m = None
     good = False
-    if len(clc) == 2 and len(ok_call) == 1:
-        t1 = defuse.show(du.origin(clc[0][1].args[1]))
-        t2 = defuse.show(du.origin(clc[1][1].args[1]))
-        m = re.match(r"tuple\{(_\d+), \*arg0\.p2pkh_standard_input_size\}$", t1)
-        ok2 = t2 == "tuple{sum(into_iter(%s)), *arg0.p2pkh_standard_output_size}" % a.get("transparent_output_sizes")
-        d1, d2 = clc[0][1].dest.local, clc[1][1].dest.local
-        # max(ceil_in, ceil_out)
-        inner = [t for _bb, t in mx if {du.root_local(x.place)[1] if x.kind in ("copy", "move") and
-                                        du.root_local(x.place) else None for x in t.args} == {d1, d2}]
-        shape = re.match(r"^mul\(\*arg0\.marginal_fee, max\(\*arg0\.grace_actions, \(\(\(max\(.*\) Add max\(%s, %s\)\) "
-                         r"Add %s\) Add %s\)\)\)$" % (a.get("sapling_input_count"), a.get("sapling_output_count"),
-                                                   a.get("orchard_action_count"), a.get("ironwood_action_count")),
-                         expr)
-        good = bool(m) and ok2 and len(inner) == 1 and bool(shape)
+    why = ""
+    if len(ok_call) == 1:
+        # the expression with the rounding-up helper (closure or nested fn) inlined
+        eo = closures.inline_fns(w, closures.norm(closures.deep()(b).origin(ok_call[0].args[0])))
+        expr = defuse.show(eo)
+        self_f = lambda n: ("field", ("arg", 0), "." + n)
+
+        def terms(o):
+            return terms(o[2]) + terms(o[3]) if o[0] == "bin" and o[1] == "Add" else [o]
+
+        def is_max(o, x, y):
+            return o[0] == "call" and re.search(r"(^|::)max$", o[1]) and len(o[2]) == 2 and \
+                ((x(o[2][0]) and y(o[2][1])) or (x(o[2][1]) and y(o[2][0])))
+
+        def ceil_of(size_field, num_ok):
+            return lambda o: o[0] == "call" and o[1].endswith("::div_ceil") and len(o[2]) == 2 and \
+                num_ok(o[2][0]) and o[2][1] == self_f(size_field)
+        tin_l = []
+
+        def is_tin(o):
+            if o[0] == "local":
+                tin_l.append(o[1])
+                return True
+            return False
+
+        def is_tout(o):
+            return defuse.show(o) == "sum(into_iter(%s))" % defuse.show(a.get("transparent_output_sizes"))
+        eq = lambda v: (lambda o: o == v)
+        if eo[0] == "call" and eo[1].endswith("::mul") and eo[2][0] == self_f("marginal_fee") and \
+                is_max(eo[2][1], eq(self_f("grace_actions")), lambda o: True):
+            s_ = [x for x in eo[2][1][2] if x != self_f("grace_actions")]
+            ts = terms(s_[0]) if len(s_) == 1 else []
+            want = [lambda o: is_max(o, ceil_of("p2pkh_standard_input_size", is_tin),
+                                     ceil_of("p2pkh_standard_output_size", is_tout)),
+                    lambda o: is_max(o, eq(a.get("sapling_input_count")), eq(a.get("sapling_output_count"))),
+                    eq(a.get("orchard_action_count")), eq(a.get("ironwood_action_count"))]
+            used = set()
+            for pr in want:
+                hit = [i for i, t_ in enumerate(ts) if i not in used and pr(t_)]
+                if hit:
+                    used.add(hit[0])
+            good = len(ts) == 4 and len(used) == 4 and len(set(tin_l)) >= 1
+            if good:
+                class _M:
+                    def group(self, _i):
+                        return "_%d" % tin_l[0]
+                m = _M()
     if good:
         chk.ok("FORMULA", "fee = marginal_fee * max(grace_actions, max(ceil(t_in/in_size), ceil(t_out/out_size)) "
                "+ max(sapling_in, sapling_out) + orchard_actions + ironwood_actions)", sample=True)
@@ -539,7 +645,8 @@ def main(tier):
     # the ceildiv closure
     cls = [g for g in w.fns.values() if g.is_closure() and g.root == f.id]
     cd = [g for g in cls if defuse.show(defuse.DefUse(g.body).origin_local(0)) == "div_ceil(arg1, arg2)"]
-    if len(cd) == 1:
+    # ... or a nested fn / direct calls: the inlined formula above already contains div_ceil itself
+    if len(cd) == 1 or (good and not cd):
         chk.ok("FORMULA", "ceildiv(num, den) = num.div_ceil(den)")
     else:
         chk.fail("FORMULA", "ceildiv", "the rounding-up division helper is not usize::div_ceil", f.span.loc())
@@ -670,6 +777,7 @@ def main(tier):
     if len(sp) == 1:
         rule_shape(chk, w, sp[0])
         rule_conserve(chk, w, sp[0])
+        rule_flows(chk, w)
     else:
         chk.fail("SHAPE", "missing", "single_pool_output_balance not found")
 
